@@ -138,6 +138,7 @@ pub struct World {
     pub script: Rc<String>,
     pub skipped: u32,
     pub delivered: BTreeSet<MsgId>,
+    pub shadow_probes: BTreeSet<String>, // probe names that fired in shadow runs (end-of-history oracles classify with them)
 }
 
 pub fn inst_key(r: &Req) -> String {
@@ -213,7 +214,7 @@ impl World {
             })
             .collect();
         let script = Rc::new(sc.script.clone());
-        World { sc, keys, ids, peers, msgs: BTreeMap::new(), runs: vec![], events: vec![], stats: Stats::default(), script, skipped: 0, delivered: BTreeSet::new() }
+        World { sc, keys, ids, peers, msgs: BTreeMap::new(), runs: vec![], events: vec![], stats: Stats::default(), script, skipped: 0, delivered: BTreeSet::new(), shadow_probes: BTreeSet::new() }
     }
     pub fn obs(&self) -> usize {
         self.sc.np
@@ -243,7 +244,7 @@ impl World {
             None => Limits::default(),
         };
         let script_rc = self.script.clone();
-        interp::run(&interp::RunArgs {
+        let out = interp::run(&interp::RunArgs {
             air: script.unwrap_or(&script_rc),
             prev,
             cur,
@@ -255,7 +256,11 @@ impl World {
             limits: &lim,
             results,
             raw_results: None,
-        })
+        });
+        for (n, _) in &out.probes {
+            self.shadow_probes.insert(n.clone());
+        }
+        out
     }
 
     /// Apply one explicit event. Returns the index of the recorded run, if the event was a run.
